@@ -89,8 +89,18 @@ def ev(e, env):
             return base[ev(e.slice, env)]
         except (KeyError, IndexError, TypeError) as ex:
             raise Undecidable("subscript: %s" % ex)
-    if isinstance(e, ast.Call) and isinstance(e.func, ast.Name) and e.func.id in ("bool", "int", "len", "abs", "max", "min") and not e.keywords:
-        return {"bool": bool, "int": int, "len": len, "abs": abs, "max": max, "min": min}[e.func.id](*[ev(a, env) for a in e.args])
+    if isinstance(e, ast.Call) and isinstance(e.func, ast.Name) and e.func.id in ("bool", "int", "len", "abs", "max", "min", "range") and not e.keywords:
+        return {"bool": bool, "int": int, "len": len, "abs": abs, "max": max, "min": min, "range": range}[e.func.id](*[ev(a, env) for a in e.args])
+    if isinstance(e, ast.Call) and isinstance(e.func, ast.Name) and e.func.id in env.get("__funcs__", {}) and not e.keywords:
+        # a call to another pure helper of the same module
+        sub = {"__funcs__": env["__funcs__"], "__depth__": env.get("__depth__", 0) + 1}
+        if sub["__depth__"] > 20:
+            raise Undecidable("call depth")
+        return call(env["__funcs__"][e.func.id], [ev(a, env) for a in e.args], sub)
+    if isinstance(e, ast.Call) and isinstance(e.func, ast.Attribute) and e.func.attr == "bit_length" and not e.args:
+        v = ev(e.func.value, env)
+        if isinstance(v, int):
+            return v.bit_length()
     raise Undecidable("expression %s" % _text(e)[:40])
 
 
@@ -126,6 +136,11 @@ def _exec(stmts, env):
             continue
         if isinstance(st, ast.AugAssign) and isinstance(st.target, ast.Name) and type(st.op) in _BIN:
             env[st.target.id] = _BIN[type(st.op)](ev(st.target, env), ev(st.value, env))
+            continue
+        if isinstance(st, ast.For) and isinstance(st.target, ast.Name) and not st.orelse:
+            for x in ev(st.iter, env):
+                env[st.target.id] = x
+                _exec(st.body, env)
             continue
         if isinstance(st, ast.While):
             n = 0
